@@ -405,6 +405,15 @@ class SymFloat(object):
     def __repr__(self):
         return "SymFloat(%s, nan=%s, pinf=%s, ninf=%s)" % (self.val, self.nan, self.pinf, self.ninf)
 
+    def __str__(self):
+        ctx = core.current()
+        if ctx is not None and (ctx.allow_realize or ctx.message_floats):
+            return repr(float(self))       # what str() of a float prints
+        return self.__repr__()
+
+    def __format__(self, spec):
+        return format(float(self), spec)
+
     @property
     def plain(self):
         return self.pinf is False and self.ninf is False
